@@ -42,9 +42,11 @@ Definition cell_test (ax ay bx by_ : Q) (ci cj : Z) : bool :=
   || intersects i (j+1) (i+1) (j+1) ax ay bx by_ || intersects (i+1) j (i+1) (j+1) ax ay bx by_.
 
 Definition zrange (lo hi : Z) : list Z := map (fun k => (lo + Z.of_nat k)%Z) (seq 0 (Z.to_nat (hi - lo + 1))).
-Definition cells (ax ay bx by_ : Q) : list (Z * Z) :=
-  let xlo := Z.min (Qfloor ax) (Qfloor bx) in let xhi := Z.max (Qfloor ax) (Qfloor bx) in
-  let ylo := Z.min (Qfloor ay) (Qfloor by_) in let yhi := Z.max (Qfloor ay) (Qfloor by_) in
+(* __cellsCrossSegment: the floor bounding box of the two ends, clamped to the last column / row (points on the upper
+   borders of the extent belong to the last cells - repair recorded under C08), then the per-cell test *)
+Definition cells (cs ls : Z) (ax ay bx by_ : Q) : list (Z * Z) :=
+  let xlo := Z.min (Z.min (Qfloor ax) (Qfloor bx)) (cs - 1) in let xhi := Z.min (Z.max (Qfloor ax) (Qfloor bx)) (cs - 1) in
+  let ylo := Z.min (Z.min (Qfloor ay) (Qfloor by_)) (ls - 1) in let yhi := Z.min (Z.max (Qfloor ay) (Qfloor by_)) (ls - 1) in
   flat_map (fun i => flat_map (fun j => if cell_test ax ay bx by_ i j then [(i, j)] else []) (zrange ylo yhi)) (zrange xlo xhi).
 
 (* the grid: association list cell -> registered feature numbers, in registration order *)
@@ -66,7 +68,7 @@ Definition wrap (ix : index) (c : Z * Z) : Z * Z :=
 
 Definition add_segment (ix : index) (g : res grid) (a b : Q * Q) (f : nat) : res grid :=
   fold_left (fun rg c => match rg with Err e => Err e | Ok g => if in_grid ix c then Ok (add g (wrap ix c) f) else Err IndexError end)
-            (cells (fst a) (snd a) (fst b) (snd b)) g.
+            (cells (csize ix) (lsize ix) (fst a) (snd a) (fst b) (snd b)) g.
 
 Fixpoint segments (l : list (Q * Q)) : list ((Q * Q) * (Q * Q)) :=
   match l with a :: (b :: _) as r => (a, b) :: segments r | _ => [] end.
@@ -80,3 +82,44 @@ Definition add_feature (ix : index) (g : res grid) (f : nat) (poly : list (Q * Q
 
 Definition build (ix : index) (feats : list (list (Q * Q))) : res grid :=
   fst (fold_left (fun '(g, f) poly => (add_feature ix g f poly, S f)) feats (Ok [], 0%nat)).
+
+(* ---- queries ---- *)
+(* the cell that contains a point of the extent: floor of the grid coordinates, the upper borders folded into the last cells *)
+Definition cell_of (ix : index) (c : Q * Q) : Z * Z := (Z.min (Qfloor (fst c)) (csize ix - 1), Z.min (Qfloor (snd c)) (lsize ix - 1)).
+
+Definition request_point (ix : index) (g : grid) (x y : Q) : option (list nat) :=
+  match get_cell ix x y with Some c => Some (lookup g (cell_of ix c)) | None => None end.
+
+(* __addCellValuesInTAB: append the values not yet present, in order *)
+Definition add_values (tab : list nat) (vals : list nat) : list nat :=
+  fold_left (fun t d => if existsb (Nat.eqb d) t then t else t ++ [d]) vals tab.
+
+Definition request_segment (ix : index) (g : grid) (p q : Q * Q) : option (list nat) :=
+  match get_cell ix (fst p) (snd p), get_cell ix (fst q) (snd q) with
+  | Some a, Some b => Some (fold_left (fun t c => add_values t (lookup g c)) (cells (csize ix) (lsize ix) (fst a) (snd a) (fst b) (snd b)) [])
+  | _, _ => None
+  end.
+
+Definition request_track (ix : index) (g : grid) (poly : list (Q * Q)) : option (list nat) :=
+  fold_left (fun acc '(p, q) =>
+    match acc, get_cell ix (fst p) (snd p), get_cell ix (fst q) (snd q) with
+    | Some t, Some a, Some b => Some (fold_left (fun t c => add_values t (lookup g c)) (cells (csize ix) (lsize ix) (fst a) (snd a) (fst b) (snd b)) t)
+    | _, _, _ => None
+    end) (segments poly) (Some []).
+
+(* __neighboringcells(i, j, u) and neighborhood(i, j, unit >= 0): union over the clipped window *)
+Definition zr (lo hi : Z) : list Z := map (fun k => (lo + Z.of_nat k)%Z) (seq 0 (Z.to_nat (hi - lo))).
+Definition window (ix : index) (i j u : Z) : list (Z * Z) :=
+  let imin := Z.max (i - u) 0 in let imax := Z.min (i + u + 1) (csize ix) in
+  let jmin := Z.max (j - u) 0 in let jmax := Z.min (j + u + 1) (lsize ix) in
+  flat_map (fun ii => map (fun jj => (ii, jj)) (zr jmin jmax)) (zr imin imax).
+Definition neighborhood_cell (ix : index) (g : grid) (i j u : Z) : list nat := flat_map (lookup g) (window ix i j u).
+Definition neighborhood_point (ix : index) (g : grid) (x y : Q) (u : Z) : option (list nat) :=
+  match get_cell ix x y with
+  | Some c => let '(i, j) := cell_of ix c in Some (neighborhood_cell ix g i j u)
+  | None => None
+  end.
+
+(* groundDistanceToUnits (repaired: the smaller cell side) *)
+Definition Qmin2 (a b : Q) : Q := if Qle_bool a b then a else b.
+Definition units (ix : index) (d : Q) : Z := Qfloor (d / Qmin2 (dX ix) (dY ix) + 1).
